@@ -152,9 +152,10 @@ def range_bounds(call):
         # max(a, b) + c as lower bound -> [a + c, b + c]; min(a, b) + c as upper bound likewise
         c = 0
         base = e
-        if isinstance(e, ast.BinOp) and isinstance(e.op, (ast.Add, ast.Sub)) and isinstance(e.right, ast.Constant):
-            c = e.right.value if isinstance(e.op, ast.Add) else -e.right.value
-            base = e.left
+        while isinstance(base, ast.BinOp) and isinstance(base.op, (ast.Add, ast.Sub)) and isinstance(base.right, ast.Constant) \
+                and isinstance(base.right.value, int):
+            c += base.right.value if isinstance(base.op, ast.Add) else -base.right.value
+            base = base.left
         if isinstance(base, ast.Call) and isinstance(base.func, ast.Name) and base.func.id == fn:
             return [(a, c) for a in base.args]
         return [(e, 0)]
